@@ -145,9 +145,9 @@ class C13(ProgramCheck):
     def nbhd_k(self, tier):
         return 1 if tier == "quick" else 2
 
-    def roots(self):
+    def roots(self, base=None):
         out, seen = [], set()
-        for _l, q in U.single_deviations(self.base):
+        for _l, q in U.single_deviations(base if base is not None else self.base):
             t = render.text(q)
             if t in seen or not U.valid(q, NATIVES):
                 continue
@@ -159,7 +159,7 @@ class C13(ProgramCheck):
         return super().shards(tier) + [("par", r) for r in range(32)]
 
     def programs(self, tier, shard):
-        kind, i = shard
+        kind, i = shard[0], shard[1]
         if kind == "nbhd":
             if i == -1:
                 yield self.base
